@@ -10,6 +10,7 @@ import UcantoModel.Model.UcanJson
 import UcantoModel.Model.Message
 import UcantoModel.Model.CborJson
 import UcantoModel.Model.ReadersJson
+import UcantoModel.Model.Base64
 /-!
 # Line-protocol driver
 stdin: one case per line, TAB separated: `op  arg1  arg2 …`
@@ -363,8 +364,74 @@ def doC18 (args : List String) (impl : String) : String :=
   | none => s!"{impl}\t-"
   | some why => s!"model-format-mismatch:{why}\t-"
 
+/-- text forms (Model/Base64.lean): every string is recomputed from the raw bytes and read back -/
+def hex3 (impl : String) : Option (Bytes × Bytes × Bytes) :=
+  match impl.splitOn "|" with
+  | [a, b, c] => match Bytes.ofHex a, Bytes.ofHex b, Bytes.ofHex c with
+    | some x, some y, some z => some (x, y, z)
+    | _, _, _ => none
+  | _ => none
+
+open Base64 in
+def parseClassOf (s : Bytes) (impl : String) : String :=
+  match parse s with
+  | .payload _ => "extract"
+  | .errCid => "err-cid"
+  | .errCodec => "err-codec"
+  | .errNotIdentity => "err-notidentity"
+  | .abstain => impl
+
+open Base64 in
+def doText (op : String) (args : List String) (impl : String) : String :=
+  let mism (why : String) := s!"model-text-mismatch:{why}\t-"
+  match op, args with
+  | "sigtext", [_, raw] => (match Bytes.ofHex raw with
+      | some b => s!"{Bytes.toHexTok (rawUrlEncode b)}\t-"
+      | none => bad "hex")
+  | "signtext", [_] => (match hex3 impl with
+      | some (h, p, s) =>
+        if s != joinDot h p then mism "the signing string is not base64url(header).base64url(payload)"
+        else if splitDot s != (rawUrlEncode h, rawUrlEncode p) then mism "the halves are not recovered at the first dot"
+        else if rawUrlDecode (rawUrlEncode h) != some h || rawUrlDecode (rawUrlEncode p) != some p then mism "halves do not decode"
+        else s!"{impl}\t-"
+      | none => s!"three-hex-fields\t-")
+  | "keyfmt", [_] => (match hex3 impl with
+      | some (enc, f, back) =>
+        if f != formatKey enc then mism "key text is not multibase M over the key bytes"
+        else if parseKey f != .ok enc then mism "key text does not read back in the model"
+        else if back != enc then mism "parsed key encodes to other bytes"
+        else s!"{impl}\t-"
+      | none => s!"three-hex-fields\t-")
+  | "mbdec", [s] => (match Bytes.ofHex s with
+      | some b => (match mbDecode b with
+        | .ok d => s!"ok|{Bytes.toHexTok d}"
+        | .err => "err"
+        | .abstain => impl) ++ "\t-"
+      | none => bad "hex")
+  | "dlgfmt", [_] => (match hex3 impl with
+      | some (re, s, re2) =>
+        if s != format re then mism "delegation text is not the identity CID (CAR codec, multibase m) over the archive"
+        else if parse s != .payload re then mism "delegation text does not read back to the archive in the model"
+        else if re2 != re then mism "parsed delegation archives to other bytes"
+        else s!"{impl}\t-"
+      | none => s!"three-hex-fields\t-")
+  | "cidfmt", [b] => (match Bytes.ofHex b with
+      | some b => s!"{Bytes.toHexTok (format b)}|{parseClassOf (format b) "abstain"}\t-"
+      | none => bad "hex")
+  | "dlgparse", [s] => (match Bytes.ofHex s with
+      | some b => s!"{parseClassOf b impl}\t-"
+      | none => bad "hex")
+  | _, _ => bad op
+
 def handle (line : String) : String :=
   match line.splitOn "\t" with
+  | ["sigtext", c, r, impl] => doText "sigtext" [c, r] impl
+  | ["signtext", a, impl] => doText "signtext" [a] impl
+  | ["keyfmt", a, impl] => doText "keyfmt" [a] impl
+  | ["mbdec", a, impl] => doText "mbdec" [a] impl
+  | ["dlgfmt", a, impl] => doText "dlgfmt" [a] impl
+  | ["cidfmt", a, impl] => doText "cidfmt" [a] impl
+  | ["dlgparse", a, impl] => doText "dlgparse" [a] impl
   | ["access", mode, world, spine, checker, _, impl] => doAccess mode world spine checker impl
   | ["didparse", a, _] => doDid "didparse" a
   | ["diddecode", a, _] => doDid "diddecode" a
